@@ -183,6 +183,14 @@ func (p *NamePacket) UnmarshalPacketBody(buf *Buffer) (err error) {
 		return buf.Err
 	}
 
+	// Each name entry occupies at least 12 bytes (two length-prefixed strings and the attribute flags),
+	// so a count larger than the remaining bytes could hold is malformed.
+	// Refuse it before sizing an allocation from it.
+	if count > buf.Len()/12 {
+		buf.Err = ErrShortPacket
+		return buf.Err
+	}
+
 	*p = NamePacket{
 		Entries: make([]*NameEntry, 0, count),
 	}
